@@ -5,9 +5,10 @@
 
    The model mirrors the code *as it is*: the sorted cache, the restart from the previous cache entry,
    the two loops of position_at (first: count line endings and remember where the last line starts,
-   second: add up the display widths from there), and `prevrune` starting at 0 on every scan.  The known
-   defects (LF of a CR LF pair counted as a column; dependence on earlier queries that fall between CR
-   and LF) are therefore reproduced.  No proofs here.
+   second: add up the display widths from there), `prevrune` starting as CR exactly when the byte before
+   the starting point of the scan is CR (the byte match_[startindex - 1], or, at the beginning of the
+   segment, the remembered origin_follows_cr_), and rebase_origin() which moves the origin to the end
+   of the segment and remembers whether the segment ended in CR.  No proofs here.
 
    Conventions / limits of the model
    - numbers are N (the code uses std::size_t for line/column/index and uint_least32 for the tab
@@ -33,14 +34,15 @@ Record pos := mkpos { p_line : N; p_col : N }.
 Record pstate := mkps {
   ps_match : list N;              (* match_: the bytes consumed so far in the current segment *)
   ps_origin : pos;                (* origin_ *)
+  ps_ofcr : bool;                 (* origin_follows_cr_ *)
   ps_cache : list (N * pos);      (* positions_ *)
   ps_tabw : N;                    (* tab_width_ *)
   ps_taba : N;                    (* tab_alignment_ *)
   ps_reset : bool                 (* should_reset_on_parse_ *)
 }.
 
-(* a freshly constructed environment: origin_{1, 1}, nothing matched, empty cache *)
-Definition init_state (tw ta : N) : pstate := mkps [] (mkpos 1 1) [] tw ta true.
+(* a freshly constructed environment: origin_{1, 1}, origin_follows_cr_{false}, nothing matched, empty cache *)
+Definition init_state (tw ta : N) : pstate := mkps [] (mkpos 1 1) false [] tw ta true.
 Definition default_state : pstate := init_state default_tab_width default_tab_alignment.
 
 (* std::lower_bound(positions_, index, x.first < y): (entries before the result, entries from the result on) *)
@@ -66,8 +68,9 @@ Fixpoint scan_lines (t : ucd_table) (fuel : nat) (cur : list N) (prevrune : N) (
       match query t rune with
       | None => None
       | Some r =>
-        if has (rec_props r) ptype_Line_Ending && negb ((prevrune =? 13) && (rune =? 10))
-        then scan_lines t f next rune (mkpos (p_line p + 1) 1) next
+        if has (rec_props r) ptype_Line_Ending
+        then scan_lines t f next rune
+               (mkpos (if negb ((prevrune =? 13) && (rune =? 10)) then p_line p + 1 else p_line p) 1) next
         else scan_lines t f next rune p first
       end
     end
@@ -98,7 +101,7 @@ Fixpoint scan_cols (t : ucd_table) (tw ta : N) (fuel : nat) (cur : list N) (col 
   end.
 
 Definition with_cache (s : pstate) (c : list (N * pos)) : pstate :=
-  mkps (ps_match s) (ps_origin s) c (ps_tabw s) (ps_taba s) (ps_reset s).
+  mkps (ps_match s) (ps_origin s) (ps_ofcr s) c (ps_tabw s) (ps_taba s) (ps_reset s).
 
 (* `if (pos != end && index == pos->first) return pos->second;` *)
 Definition cache_lookup (after : list (N * pos)) (index : N) : option pos :=
@@ -107,11 +110,15 @@ Definition cache_lookup (after : list (N * pos)) (index : N) : option pos :=
   | [] => None
   end.
 
+(* initial value of prevrune: CR if (startindex > 0 ? the byte before `first` is CR : origin_follows_cr_), else 0 *)
+Definition initial_prevrune (s : pstate) (startindex : N) : N :=
+  if (if 0 <? startindex then nth (N.to_nat startindex - 1) (ps_match s) 0 =? 13 else ps_ofcr s) then 13 else 0.
+
 (* the two loops of position_at, started at the cache entry (or origin) `start` = (startindex, position) *)
 Definition compute_position (t : ucd_table) (s : pstate) (start : N * pos) (index : N) : option pos :=
   let '(startindex, position) := start in
   let sub := firstn (N.to_nat (index - startindex)) (skipn (N.to_nat startindex) (ps_match s)) in
-  match scan_lines t (length sub) sub 0 position sub with
+  match scan_lines t (length sub) sub (initial_prevrune s startindex) position sub with
   | None => None
   | Some (position1, first) =>
     match scan_cols t (ps_tabw s) (ps_taba s) (length first) first (p_col position1) with
@@ -136,15 +143,24 @@ Definition position_at (t : ucd_table) (s : pstate) (index : N) : option (pos * 
 
 (* environment::set_match_and_subject (the subject plays no role for positions) *)
 Definition set_match (s : pstate) (m : list N) : pstate :=
-  mkps m (ps_origin s) [] (ps_tabw s) (ps_taba s) (ps_reset s).
+  mkps m (ps_origin s) (ps_ofcr s) [] (ps_tabw s) (ps_taba s) (ps_reset s).
 
-Definition with_origin (s : pstate) (o : pos) : pstate :=
-  mkps (ps_match s) o (ps_cache s) (ps_tabw s) (ps_taba s) (ps_reset s).
+Definition with_origin (s : pstate) (o : pos) (cr : bool) : pstate :=
+  mkps (ps_match s) o cr (ps_cache s) (ps_tabw s) (ps_taba s) (ps_reset s).
 
-(* environment::drain: origin_ = position_at(match_.size()); set_match_and_subject(sub.substr(0, 0), sub) *)
-Definition drain (t : ucd_table) (s : pstate) : option pstate :=
+(* environment::rebase_origin:
+     origin_ = position_at(match_.size()); if (!match_.empty()) origin_follows_cr_ = (match_.back() == CR); *)
+Definition rebase_origin (t : ucd_table) (s : pstate) : option pstate :=
   match position_at t s (N.of_nat (length (ps_match s))) with
-  | Some (p, s') => Some (set_match (with_origin s' p) [])
+  | Some (p, s') =>
+      Some (with_origin s' p (match ps_match s' with [] => ps_ofcr s' | _ :: _ => last (ps_match s') 0 =? 13 end))
+  | None => None
+  end.
+
+(* environment::drain: rebase_origin(); set_match_and_subject(sub.substr(0, 0), sub) *)
+Definition drain (t : ucd_table) (s : pstate) : option pstate :=
+  match rebase_origin t s with
+  | Some s' => Some (set_match s' [])
   | None => None
   end.
 
@@ -153,7 +169,7 @@ Definition reset (t : ucd_table) (s : pstate) : option pstate :=
   if ps_reset s then drain t s else Some s.
 
 Definition set_reset_flag (s : pstate) (b : bool) : pstate :=
-  mkps (ps_match s) (ps_origin s) (ps_cache s) (ps_tabw s) (ps_taba s) b.
+  mkps (ps_match s) (ps_origin s) (ps_ofcr s) (ps_cache s) (ps_tabw s) (ps_taba s) b.
 
 (* the operations the drivers (cpp/posdrv.cpp, ocaml/pos_driver.ml) replay *)
 Inductive op :=
